@@ -27,7 +27,10 @@ def shapes():
         out.append((False, [(kind, n)]))
     out.append((True, []))
     for vs in [[('unit', 0)], [('tuple', 2)], [('unit', 0), ('tuple', 1)], [('named', 2), ('tuple', 2), ('unit', 0)],
-               [('tuple', 1), ('tuple', 1)], [('named', 1), ('named', 1), ('tuple', 3), ('unit', 0)]]:
+               [('tuple', 1), ('tuple', 1)], [('named', 1), ('named', 1), ('tuple', 3), ('unit', 0)],
+               # several field-less variants of every form (distinct field-less variants are distinct values too)
+               [('unit', 0), ('unit', 0)], [('unit', 0), ('tuple', 0), ('named', 0)],
+               [('unit', 0), ('tuple', 1), ('unit', 0)], [('tuple', 0), ('named', 2), ('named', 0), ('unit', 0), ('tuple', 1)]]:
         out.append((True, vs))
     return out
 
